@@ -78,6 +78,29 @@ def fault_descs(rng, tier):
                         d["callback_kind"] = cb
                         d["stop_at"] = 1
                     out.append(d)
+    # a callback that asks to stop at EVERY possible evaluation of runs that take second-order-correction and geometry
+    # steps (curved equality constraints, infeasible start): each evaluation site of the main loop has its own handlers
+    soc_bases = [
+        {"x0": [2.0, 2.0], "fun": {"kind": "lin", "c": [1.0, 0.0], "w": [1, 1]},
+         "constraints": [{"type": "nonlinear", "fun": {"kind": "quartic", "c": [0.0, 0.0], "r": 1.0, "a": 1.0, "b": 0.0}, "lb": [0.0], "ub": [0.0]}], "options": {"maxfev": 80}},
+        {"x0": [3.0, 1.0], "fun": {"kind": "lin", "c": [1.0, 2.0], "w": [1, 1]},
+         "constraints": [{"type": "nonlinear", "fun": {"kind": "l1", "c": [0.0, 0.0], "r": 1.0, "a": 1.0, "b": 0.0}, "lb": [0.0], "ub": [0.0]}], "options": {"maxfev": 80}},
+        {"x0": [0.5, 2.5], "fun": {"kind": "lin", "c": [0.0, 1.0], "w": [1, 1]},
+         "constraints": [{"type": "nonlinear", "fun": {"kind": "parab", "c": [0.0, 0.0], "r": 1.0, "a": 20.0, "b": 0.0}, "lb": [0.0], "ub": [0.0]}], "options": {"maxfev": 80}},
+    ]
+    for base in soc_bases:
+        for k in range(1, 36):
+            for cb in ("xk", "ir"):
+                if tier == "quick" and rng.random() > 0.4:
+                    continue
+                d = copy.deepcopy(base)
+                d["callback_kind"] = cb
+                d["stop_at"] = k
+                out.append(d)
+            if tier != "quick" or rng.random() < 0.4:
+                d = copy.deepcopy(base)
+                d["options"]["maxfev"] = k                     # the budget running out at that evaluation
+                out.append(d)
     return out
 
 
